@@ -324,8 +324,11 @@ Definition src_ok (s : mstate) : Prop := pending s = [] /\ alive s = false /\ in
 Lemma avail_ok s i n dd : src_ok s -> available i n dd s = ((i <? lenN inp)%N && (n <=? lenN inp - i)%N, s).
 Proof.
   intros (Hp & Hal & Hin & Hb). unfold available. rewrite Hp. cbn [length]. cbn [available_loop]. rewrite Hb, Hin.
-  destruct ((i <? lenN inp) && (n <=? lenN inp - i))%N; [reflexivity|].
-  rewrite andb_false_r. unfold fill_buffer. rewrite Hal. reflexivity.
+  rewrite andb_false_r. unfold fill_buffer. rewrite Hal. cbn [negb snd].
+  destruct (i <? lenN inp)%N eqn:Ei; cbn [andb]; [|reflexivity].
+  destruct (N.max n dd <=? lenN inp - i)%N eqn:Em.
+  - replace (n <=? lenN inp - i)%N with true by lia. reflexivity.
+  - destruct (n <=? lenN inp - i)%N; reflexivity.
 Qed.
 
 Lemma rest_nil i : (lenN inp <= i)%N -> rest i = [].
